@@ -22,6 +22,10 @@ def prog(wid, prop, src, **extra):
     W[wid] = (prop, case)
 
 
+def raw(wid, prop, case):
+    W[wid] = (prop, case)
+
+
 exec(open(os.path.join(ROOT, "tools", "witness_cases.py")).read())
 
 for wid, (prop, case) in sorted(W.items()):
